@@ -105,8 +105,10 @@ impl<'a> Read for SchedReader<'a> {
 				self.short_reads += 1;
 			}
 		}
-		buf[..n].copy_from_slice(&self.data[self.pos..self.pos + n]);
-		self.pos += n;
+		if n > 0 {
+			buf[..n].copy_from_slice(&self.data[self.pos..self.pos + n]);
+			self.pos += n;
+		}
 		self.high_water = self.high_water.max(self.pos);
 		Ok(n)
 	}
